@@ -194,6 +194,9 @@ func serializeInteger(buf *bytes.Buffer, s string) {
 
 func serializeFloat(buf *bytes.Buffer, s string) {
 	buf.Write([]byte{91, 70, 93})
+	if s == "-0" {
+		s = "0"
+	}
 	buf.WriteString(s)
 }
 
